@@ -90,5 +90,7 @@ class PlayerPositionAndLookPacket(Packet, BitFieldEnum):
         else:
             target.pitch = self.pitch
 
-        target.yaw %= 360
-        target.pitch %= 360
+        # The second reduction handles tiny negative angles, for which the
+        # floating-point result of the first is exactly 360.0.
+        target.yaw = target.yaw % 360 % 360
+        target.pitch = target.pitch % 360 % 360
